@@ -1305,7 +1305,7 @@ class AttrProxyAccessor(WritableAccessor[T_co], PhysicalAccessor[T_co]):
         self, elmlist: _obj.ElementListCouplingMixin, obj: _obj.ModelObject
     ) -> None:
         assert self.aslist is not None
-        objs = [i for i in elmlist if i != obj]
+        objs = [i for i in elmlist if i._element is not obj._element]
         self.__set_links(elmlist._parent, objs)
 
     def __set_links(
